@@ -41,6 +41,9 @@ def results(tag):
 def one(src, dst, pid, det, conf):
     if not os.path.exists(os.path.join(src, "patch.diff")):
         return False
+    if not conf or "demo_with_patch=0" in conf or "demo_without_patch=0" not in conf:
+        shutil.rmtree(dst, ignore_errors=True)      # keep only what the lead has confirmed
+        return False
     os.makedirs(dst, exist_ok=True)
     for f in ["patch.diff", "demo.cc", "run.sh"]:
         if os.path.exists(os.path.join(src, f)):
@@ -54,7 +57,7 @@ def one(src, dst, pid, det, conf):
     meta["lead_confirmation"] = dict(
         procedure="fresh git worktree of /repo HEAD + build outputs; git apply patch.diff; make; run demo (must exit non-zero); make -k check (full existing suite); git checkout -- src; make; run demo (must exit 0)",
         result=conf or "not yet confirmed by the lead",
-        note="t-seabp is listed as flaky in the baseline (not part of the 44 stable results); t-poker-aiou hung once under machine load 200+ and passed when re-run alone")
+        note="t-seabp is listed as flaky in the baseline (not part of the 44 stable results) and hangs under machine load; tests killed by the 25-40 min watchdog of the confirmation script under load (t-poker-aiou for C02, C15-2; t-mpz for C08-3) passed when re-run alone with the patch applied")
     meta["detection"] = det
     with open(os.path.join(dst, "meta.json"), "w") as f:
         json.dump(meta, f, indent=1)
